@@ -15,7 +15,7 @@ def run(tier):
     sd = vlib.scratch("c01")
     binp = build(sd)
     cs, r = cases.enumerate_cases("GenRelay", "GenRelay.cfg")
-    chk.add_tlc("pairwise-covering exchanges over 12 dimensions (spec/Relay.tla)", r)
+    chk.add_tlc("pairwise-covering exchanges over 13 dimensions (spec/Relay.tla)", r)
     rounds = 4 if tier == "thorough" else 1
     total = 0
     for k in range(rounds):
@@ -26,7 +26,7 @@ def run(tier):
             c = e["c"]
             o = e["o"]
             return {"clause": clause, "method": c[0], "path": c[1], "reqhdr": c[3], "reqbody": c[4], "status": c[5],
-                    "resphdr": c[6], "respbody": c[7], "base": c[8], "ids": c[10], "plugin": c[11],
+                    "resphdr": c[6], "respbody": c[7], "base": c[8], "ids": c[10], "plugin": c[11], "features": c[12],
                     "via_err": o["via"].get("err"), "direct_err": o["direct"].get("err")}
         cases.judge(chk, "ObsRelayTrace", "ObsRelayTrace.cfg", tp, sig, "relay%d" % k)
     chk.cov["traces_validated_against_impl"] = total
